@@ -1,7 +1,7 @@
 // U-sched: the scheduler core under contract (C01-C06, C08, C15, C16, C19 function-level parts).
 //@@ unit U-sched
-//@@ default props=C02 rewrites=R1,R2,R3,R5,R13 ghost="Tracked(h): Tracked<&mut Heap>" ghostarg="Tracked(h)" loopinv="h.wf(), fwd(*old(h), *h)," bodyprelude="broadcast use {lemma_fwd_refl, lemma_fwd_trans};" attr="#[verifier::exec_allows_no_decreases_clause] #[verifier::loop_isolation(false)]"
-//@@ heapmethods state set_state set_err err children children_in next parent siblings task set_task sched_task emit_task_event emit_proc_event eval init run review error exec is_ready emit_task emit_error create_task push root set_data flag set_flag prev start_time update_data outputs is_event_processed prepare is_auto_complete abort_task back_task undo_task redo_task action set_action get_var get_var_or_default dispatch_act backs backs_step create_context set_message_with update arm_cancel do_action dispatch time_millis hooks_snapshot flag_or_false run_hooks_by run_hooks
+//@@ default props=C02 rewrites=R1,R2,R3,R5,R13 ghost="Tracked(h): Tracked<&mut Heap>" ghostarg="Tracked(h)" loopinv="h.wf(), fwd(*old(h), *h)," bodyprelude="broadcast use {lemma_fwd_refl, lemma_fwd_trans, axiom_flag_as_bool};" attr="#[verifier::exec_allows_no_decreases_clause] #[verifier::loop_isolation(false)]"
+//@@ heapmethods state set_state set_err err children children_in next parent siblings task set_task sched_task emit_task_event emit_proc_event eval init run review error exec is_ready emit_task emit_error create_task push root set_data flag set_flag prev start_time update_data outputs is_event_processed prepare is_auto_complete abort_task back_task undo_task redo_task action set_action get_var get_var_or_default dispatch_act backs backs_step create_context set_message_with update arm_cancel do_action dispatch time_millis hooks_snapshot flag_or_false run_hooks_by run_hooks find
 use vstd::prelude::*;
 use std::sync::Arc;
 verus! {
@@ -292,7 +292,7 @@ impl StatementBatch {
             self is Timeout && final(h).queue.len() > old(h).queue.len() ==> parse_limit(self->Timeout_0.on@) is Ok
                 && old(h).now - old(h).tasks[old(h).cur].start_time >= limit_secs(parse_limit(self->Timeout_0.on@)->Ok_0) * 1000,
             //# W1-fires-when-due
-            self is Timeout && ret is Ok && !timeout_flag(old(h).tasks[old(h).cur], self->Timeout_0.on@) && parse_limit(self->Timeout_0.on@) is Ok
+            self is Timeout && ret is Ok && !st_terminal(old(h).st(old(h).cur)) && !timeout_flag(old(h).tasks[old(h).cur], self->Timeout_0.on@) && parse_limit(self->Timeout_0.on@) is Ok
                 && old(h).now - old(h).tasks[old(h).cur].start_time >= limit_secs(parse_limit(self->Timeout_0.on@)->Ok_0) * 1000
                 ==> timeout_flag(final(h).tasks[old(h).cur], self->Timeout_0.on@)
                     && final(h).queue.len() == old(h).queue.len() + n_children_in(old(h).links_rev, *old(h).tasks[old(h).cur].node, NodeOutputKind::Timeout, Some(self->Timeout_0.on@)).len(),
